@@ -96,6 +96,20 @@ def judge(ctx, sc, rr, legit_from_decode=True):
             ctx.violation(dict(kind="fabricated_success"), dict(scenario=sc, run=rid, results=res["results"], intact=sorted(legit)))
     if sc.get("version", 3) == 1 and len(oks) > v1n:
         ctx.violation(dict(kind="fabricated_success", version=1), dict(scenario=sc, results=res["results"], intact=v1n))
+    if res.get("stream_verdict") == "garbage" and res.get("pending_open"):
+        # the stream had turned to garbage (an independent strict decode of the same bytes fails) while it was still
+        # open: the calls that were waiting when the client's decoder met the garbage must fail then, not when the
+        # stream ends (calls started afterwards wait for traffic of their own)
+        evs = res.get("events") or []
+        first_err = next((i for i, e in enumerate(evs) if e["ev"] in ("c.decode", "c.v1decode") and (e.get("kv") or {}).get("err")), None)
+        if first_err is not None:
+            # "waiting" = registered with the read loop (v3) / holding the v1 call mutex, i.e. its work-start is on its way
+            before = set((e.get("kv") or {}).get("run") for e in evs[:first_err] if e["ev"] in ("c.register", "c.v1lock")
+                         and not (e.get("kv") or {}).get("dup") and not (e.get("kv") or {}).get("closed"))
+            late = sorted(before & set(res["pending_open"]))
+            if late:
+                ctx.violation(dict(kind="pending_on_garbled_open_stream"),
+                              dict(scenario=sc, pending=late, results=res["results"], decode_error=evs[first_err]))
     if res["results"].get("#schema", {}).get("st") == "ok" and any(o.get("op") == "close" for o in sc.get("ops", [])) \
             and not res.get("close_ret"):
         ctx.violation(dict(kind="close_did_not_return"), dict(scenario=sc, results=res["results"]))
@@ -108,6 +122,9 @@ BASE = {
     "v3conc": [dict(op="exec", run="r1", emit=True), dict(op="exec", run="r2"), dict(op="exec", run="r3"),
                dict(op="unsol", kind="sig", run="r1"), dict(op="reply", run="r2", kind="ok"), dict(op="unsol", kind="err_none", run=""),
                dict(op="reply", run="r1", kind="ok"), dict(op="reply", run="r3", kind="err"), dict(op="close")],
+    # a caller that passes a signal channel and leaves it open; the stream ends under it
+    "v3sigopen": [dict(op="exec", run="r1", sig=True), dict(op="exec", run="r2"), dict(op="reply", run="r2", kind="ok"),
+                  dict(op="close_out", kind="eof"), dict(op="close")],
     "v1serial": [dict(op="exec", run="r1"), dict(op="reply", run="r1", kind="ok"), dict(op="exec", run="r2"),
                  dict(op="reply", run="r2", kind="ok")],
 }
